@@ -244,7 +244,8 @@ def check_scenario(ck, scen, rng, ntab, per_leaf_coords, out):
             for c in coords:
                 dvec[c] = rng.choice([-1.0, 1.0]) * rng.uniform(0.5, 1.0)
             tasks.append(("dir", dvec))
-        chosen = coords if per_leaf_coords is None or len(coords) <= per_leaf_coords else rng.sample(coords, per_leaf_coords)
+        want = per_leaf_coords if per_leaf_coords is not None else (len(coords) if len(coords) <= 40 else 12)
+        chosen = coords if len(coords) <= want else rng.sample(coords, want)
         for c in sorted(chosen):
             dvec = [0.0] * len(vals[name])
             dvec[c] = 1.0
@@ -339,6 +340,186 @@ def check_reuse(ck, scen, rng, out):
                                    "leaf": k, "coord": i, "new_point": new, "reused_object_grad": a,
                                    "fresh_object_grad": w})
                 return
+
+
+# ----------------------------------------------------------------------------- histories on live objects
+def _history_leaves(scen, built):
+    """leaves that can be driven through the public Parameter interface and whose changes the density is
+    notified of (a FakeTreeModel holds its heights without listening to them; bare tensors have no setter)"""
+    out = []
+    for k, p in built.params.items():
+        if not hasattr(p, "fire_parameter_changed") or not hasattr(type(p), "requires_grad"):
+            continue
+        if scen.family == "coal" and k == "nh":
+            continue
+        out.append(k)
+    return sorted(out)
+
+
+def _grads(built, names):
+    g = {}
+    for k in names:
+        gr = built.params[k].grad
+        g[k] = None if gr is None else [float(t) for t in gr.reshape(-1)]
+    return g
+
+
+def _zero_grads(built):
+    for p in built.params.values():
+        t = p.tensor
+        if t.grad is not None:
+            t.grad = None
+
+
+def _compare_with_fresh(ck, scen, vals, got, want, names, history, out, kind):
+    """every history gradient must equal the fresh-object gradient (itself checked against finite
+    differences); a disagreement is confirmed with a finite difference before it is reported"""
+    for k in names:
+        w = want.get(k)
+        g = got.get(k)
+        for i in leaf_coords(scen, k):
+            a = 0.0 if g is None else g[i]
+            b = 0.0 if w is None else w[i]
+            if abs(a - b) <= 1e-7 * max(abs(a), abs(b)) + 1e-10:
+                continue
+            dvec = [0.0] * len(vals[k])
+            dvec[i] = 1.0
+            try:
+                b0 = scen.make(vals, False)
+                sig = signature(b0)
+                h0 = initial_step(scen, vals, {k: dvec}, b0, sig)
+                fd = fd_directional(scen, vals, {k: dvec}, sig, h0, 5)
+            except NotInterior:
+                ck.bucket("history/skipped-not-interior")
+                return True
+            if abs(a - fd["d"]) <= tolerance(a, fd):
+                continue  # the history gradient is the right one; the fresh one is judged by check_scenario
+            out["bad"].append({"kind": kind, "scenario": scen.name, "spec": scen.spec, "leaf": k, "coord": i,
+                               "history": history, "point": vals, "grad_is_none": g is None,
+                               "history_grad": None if g is None else a, "fresh_object_grad": b,
+                               "finite_difference": fd["d"], "fd_error_estimate": fd["err"]})
+            return False
+    return True
+
+
+def history_late_grad(ck, scen, rng, out):
+    """evaluate with NO parameter requiring grad; enable autograd through the public setter
+    (`p.requires_grad = True`, what torchtree.optim.Optimizer does) for one parameter, evaluate, backward;
+    then for a second parameter while the first already carries grad, evaluate, backward"""
+    vals = scen.x
+    history = []
+    try:
+        v_f, g_f, _ = eval_grad(scen, vals)
+        b = scen.make(vals, False)
+        names = _history_leaves(scen, b)
+        if not names:
+            return
+        v0 = float(_value(b).detach())
+        history.append("evaluate (no parameter requires grad)")
+    except Exception:
+        return
+    if not math.isfinite(v0) or abs(v0 - v_f) > 1e-9 * max(1.0, abs(v_f)):
+        return
+    order = list(names)
+    rng.shuffle(order)
+    enabled = []
+    for name in order[:2]:
+        try:
+            b.params[name].requires_grad = True
+            history.append(f"{name}.requires_grad = True")
+            enabled.append(name)
+            _zero_grads(b)
+            val = _value(b)
+            history.append("evaluate")
+        except Exception:
+            return
+        if abs(float(val.detach()) - v_f) > 1e-9 * max(1.0, abs(v_f)):
+            ck.bucket("history/value-differs(C11 subject)")
+            return
+        try:
+            if val.requires_grad:
+                val.backward(retain_graph=True)
+            history.append("backward")
+        except Exception as e:
+            out["bad"].append({"kind": "backward-raises-in-history", "scenario": scen.name, "spec": scen.spec,
+                               "history": history, "point": vals, "error": f"{type(e).__name__}: {str(e)[:300]}"})
+            return
+        ck.case(key=("history/late-grad", scen.name, tuple(enabled)), bucket="history/late-grad",
+                sample={"scenario": scen.name, "history": list(history)})
+        if not _compare_with_fresh(ck, scen, vals, _grads(b, enabled), g_f, enabled, list(history), out,
+                                   "gradient-missing-or-wrong-after-enabling-requires_grad"):
+            return
+
+
+def history_update_one(ck, scen, rng, out, inplace):
+    """evaluate and backward, then change ONE parameter (assignment through the setter, or in place followed by
+    fire_parameter_changed() as an optimiser step does), evaluate again and backward"""
+    import torch
+
+    vals = scen.x
+    history = []
+    try:
+        b = scen.make(vals, True)
+        names = _history_leaves(scen, b)
+        if not names:
+            return
+        val = _value(b)
+        if val.requires_grad:
+            val.backward(retain_graph=True)
+        history.append("evaluate; backward")
+        name = rng.choice(names)
+        lo, hi = scen.bounds[name]
+        coords = set(leaf_coords(scen, name))
+        nv = []
+        for i, x in enumerate(vals[name]):
+            if i not in coords:
+                nv.append(x)
+                continue
+            room = min(0.02 * max(abs(x), 0.1), 0.2 * (x - lo) if lo is not None else math.inf,
+                       0.2 * (hi - x) if hi is not None else math.inf)
+            nv.append(x + rng.uniform(-1, 1) * room)
+        new = {k: (nv if k == name else list(v)) for k, v in vals.items()}
+        v_f, g_f, b_f = eval_grad(scen, new)
+        if signature(b_f) != signature(scen.make(vals, False)):
+            return
+        p = b.params[name]
+        if inplace:
+            with torch.no_grad():
+                p.tensor.copy_(torch.tensor(nv, dtype=torch.float64))
+            p.fire_parameter_changed()
+            history.append(f"{name}.tensor.copy_(new) under no_grad; {name}.fire_parameter_changed()")
+        else:
+            p.tensor = torch.tensor(nv, dtype=torch.float64, requires_grad=True)
+            history.append(f"{name}.tensor = new tensor")
+        _zero_grads(b)
+        val = _value(b)
+        history.append("evaluate")
+    except Exception:
+        return
+    if not math.isfinite(float(val.detach())) or abs(float(val.detach()) - v_f) > 1e-9 * max(1.0, abs(v_f)):
+        ck.bucket("history/value-differs(C11 subject)")
+        return
+    try:
+        if val.requires_grad:
+            val.backward(retain_graph=True)
+        history.append("backward")
+    except Exception as e:
+        out["bad"].append({"kind": "backward-raises-in-history", "scenario": scen.name, "spec": scen.spec,
+                           "history": history, "point": new, "error": f"{type(e).__name__}: {str(e)[:300]}"})
+        return
+    ck.case(key=("history/update", scen.name, name, inplace), bucket="history/update-" + ("inplace" if inplace else "assign"),
+            sample={"scenario": scen.name, "history": list(history)})
+    _compare_with_fresh(ck, scen, new, _grads(b, names), g_f, names, list(history), out,
+                        "gradient-wrong-after-parameter-update")
+
+
+def check_histories(ck, scen, rng, out, which):
+    if "late" in which:
+        history_late_grad(ck, scen, rng, out)
+    if "assign" in which:
+        history_update_one(ck, scen, rng, out, False)
+    if "inplace" in which:
+        history_update_one(ck, scen, rng, out, True)
 
 
 # ----------------------------------------------------------------------------- self test of the FD machinery
@@ -448,8 +629,18 @@ def _run(ck: Check):
             continue
         fam_seen[scen.family] = fam_seen.get(scen.family, 0) + 1
         check_scenario(ck, scen, rng, 5 if thorough else 4, None if thorough else 3, out)
+        if spec.get("expect_switch"):
+            try:
+                _b = scen.make(scen.x, False)
+                _value(_b)
+                ck.bucket("underflow/switched-to-rescaled" if _b.model.rescale else "underflow/no-switch")
+            except Exception:
+                pass
         if thorough or i % 2 == 0:
             check_reuse(ck, scen, rng, out)
+        # histories on live objects: late enabling of autograd, single-parameter updates
+        check_histories(ck, scen, rng, out,
+                        ("late", "assign", "inplace") if thorough else ("late", ("assign", "inplace")[i % 2]))
         done += 1
     ck.extra["configurations_checked"] = done
     ck.extra["implementation_evaluations"] = out["evals"]
@@ -488,6 +679,12 @@ def _describe(bad):
         return (f"{bad['scenario']}: after updating the parameters through their setters the value is right but "
                 f"d/d{bad['leaf']}[{bad['coord']}] = {bad['reused_object_grad']:.10g}, fresh objects give "
                 f"{bad['fresh_object_grad']:.10g}")
+    if k in ("gradient-missing-or-wrong-after-enabling-requires_grad", "gradient-wrong-after-parameter-update"):
+        return (f"{bad['scenario']}: after the history {bad['history']} d/d{bad['leaf']}[{bad['coord']}] = "
+                f"{'None' if bad['grad_is_none'] else '%.10g' % bad['history_grad']} but the finite difference of the "
+                f"returned value = {bad['finite_difference']:.10g} (fresh objects: {bad['fresh_object_grad']:.10g})")
+    if k == "backward-raises-in-history":
+        return f"{bad['scenario']}: after the history {bad['history']} backward raises {bad.get('error', '')}"
     return f"{bad['scenario']}: {k}: {bad.get('error', '')}"
 
 
@@ -530,6 +727,12 @@ def replay(path: str) -> int:
     ck = Check("C12", "quick", 0)
     if bad["kind"] == "backward-raises":
         check_scenario(ck, scen, random.Random(0), 4, 1, out)
+    elif "history" in bad:
+        # the recorded history is re-enacted for a handful of random parameter choices
+        for sd in range(12):
+            check_histories(ck, scen, random.Random(sd), out, ("late", "assign", "inplace"))
+            if out["bad"]:
+                break
     else:
         # reuse findings: replay the recorded move
         class _R(random.Random):
